@@ -8,7 +8,9 @@ from lib.common import LEAN, write_if_changed
 from lib import solvercheck as SC
 import translate_solver as ts
 
-THEOREMS = ["Claripy.Props.C17.C17_mro_solver"]
+THEOREMS = ["Claripy.Props.C17.C17_mro_solver", "Claripy.Props.C17.C17_giveup_keeps_invariant",
+            "Claripy.Props.C17.C17_cacheless_after_giveup", "Claripy.Solver.z3Satisfiable_spec",
+            "Claripy.Solver.z3BatchEval_spec", "Claripy.Solver.z3Extrema_spec"]
 A = lambda c, s=0: {"s": s, "op": "add", "cs": [c]}  # noqa: E731
 E = lambda e, n, s=0: {"s": s, "op": "eval", "e": e, "n": n, "extra": []}  # noqa: E731
 RULES = {
